@@ -218,6 +218,39 @@ fn any_field(rng: &mut Rng, keys: &Keys) -> GF {
     }
 }
 
+/// C02 on the TYPED extra field as a whole: `serialize(ExtraField(fields))` is the varint of the payload length followed by the
+/// by-the-book layout of each field (written here, not by the library), the reported length is the number of bytes written (also through a
+/// short-writing sink), the blob parses back as a `RawExtraField` holding exactly the payload, and `RawExtraField::from` gives the same
+/// payload. Field sizes sweep every length 0..=255 for nonces / miner-gate blobs and the count boundaries 63/64/127/128/129 of additional keys
+/// (where a length computed separately from the bytes written goes wrong), alone and between other fields.
+pub fn run_extrafield_enc(o: &mut Out, rng: &mut Rng, n: usize) {
+    use monero::consensus::encode::{deserialize, serialize, Encodable};
+    let keys = Keys::new(rng, 12);
+    let mut cases: Vec<Vec<GF>> = vec![vec![]];
+    for len in 0..=255usize { cases.push(vec![GF::Nonce(rng.bytes(len))]); if len % 3 == 0 { cases.push(vec![GF::Key(keys.valid(rng)), GF::Gate(rng.bytes(len))]); } }
+    for len in [256usize, 8191, 8192, 16383, 16384, 16385] { cases.push(vec![GF::Gate(rng.bytes(len)), GF::Key(keys.valid(rng))]); }
+    for cnt in [0usize, 1, 63, 64, 65, 127, 128, 129, 255, 256] { cases.push(vec![GF::Key(keys.valid(rng)), GF::Add((0..cnt).map(|_| keys.valid(rng)).collect())]); }
+    for d in [0u64, 127, 128, 16383, 16384, 1 << 56, u64::MAX] { cases.push(vec![GF::MM(d, rng.arr32(), None), GF::Nonce(rng.bytes(64))]); }
+    for _ in 0..n { let k = rng.range(1, 5) as usize; cases.push((0..k).map(|i| wf_field(rng, &keys, i == 0)).collect()); }
+    for fs in cases {
+        let subs: Option<Vec<SubField>> = fs.iter().map(to_sub).collect(); let subs = match subs { Some(x) => x, None => continue };
+        let mut payload = vec![]; for f in &fs { layout(f, &mut payload); }
+        let mut want = vec![]; varint(payload.len() as u64, &mut want); want.extend_from_slice(&payload);
+        let ex = ExtraField(subs); let id = format!("extrafield [{}]", fs.iter().map(|f| match f { GF::Pad(k) => format!("pad{}", k), GF::Key(_) => "key".into(), GF::Nonce(v) => format!("nonce{}", v.len()), GF::MM(d, _, _) => format!("mm{}", d), GF::Add(v) => format!("add{}", v.len()), GF::Gate(v) => format!("gate{}", v.len()) }).collect::<Vec<_>>().join(" "));
+        let mut w = vec![]; let len = ex.consensus_encode(&mut w).unwrap();
+        o.direct(w == want, "C02: serialize(ExtraField) == varint(payload length) | layout of each sub-field", id.clone(), crate::common::trunc(&hex(&w), 300), crate::common::trunc(&hex(&want), 300));
+        o.direct(len == w.len(), "C02: ExtraField::consensus_encode reports the number of bytes written", id.clone(), len.to_string(), w.len().to_string());
+        let (cw, cl) = crate::common::encode_chunked(&ex);
+        o.direct(cw == w && cl == Some(w.len()), "C02: ExtraField::consensus_encode into a short-writing io::Write gives the same bytes and count", id.clone(), format!("{} bytes, reported {:?}", cw.len(), cl), format!("{} bytes", w.len()));
+        let back = deserialize::<RawExtraField>(&w);
+        o.direct(back.as_ref().map(|r| r.0 == payload).unwrap_or(false), "C02: deserialize::<RawExtraField>(serialize(ExtraField)) holds exactly the payload", id.clone(), format!("{:?}", back.as_ref().map(|r| r.0.len())), format!("Ok({})", payload.len()));
+        let raw = crate::common::guarded(|| RawExtraField::from(ex.clone()));
+        o.direct(raw.as_ref().map(|r| r.0 == payload).unwrap_or(false), "C02: RawExtraField::from(ExtraField) holds exactly the payload", id.clone(), format!("{:?}", raw.as_ref().map(|r| r.0.len())), format!("Ok({})", payload.len()));
+        o.direct(serialize(&ex) == w, "C02: serialize == consensus_encode", id, "differs".into(), "same".into());
+        o.stat("extrafield_enc");
+    }
+}
+
 /// C02 on sub-fields: every kind at its boundary sizes (padding 0..=255 incl. the documented maximum, merge-mining depths
 /// of every varint width, nonce / blob lengths around 127/128 and 16383/16384, 0..129 additional keys), alone and followed
 /// by a suffix. Direct checks: reported length = bytes written; strict parse returns the field; partial parse returns the
